@@ -738,18 +738,22 @@ func (b *Block) getNumVoxels(labelIndex uint32) (labelVoxels uint64) {
 				}
 
 				var found bool
-				var targetIndex uint16
+				sbIndexPos := indexPos // a sub-block can reference the label index more than once (e.g., after a merge)
 				for i := uint16(0); i < numSBLabels; i++ {
 					if b.SBIndices[indexPos] == labelIndex {
 						found = true
-						targetIndex = i
 					}
 					indexPos++
 				}
+				bits := int(bitsFor(numSBLabels))
 				if !found {
+					// skip this sub-block's packed values so the next sub-block is read from the right position
+					bitpos += int(subBlockNumVoxels) * bits
+					if bitpos%8 != 0 {
+						bitpos += 8 - (bitpos % 8)
+					}
 					continue
 				}
-				bits := int(bitsFor(numSBLabels))
 
 				var x, y, z int32
 				for z = 0; z < SubBlockSize; z++ {
@@ -768,7 +772,7 @@ func (b *Block) getNumVoxels(labelIndex uint32) (labelVoxels uint64) {
 								index |= uint16(b.SBValues[bytepos+1])
 								index >>= uint(16 - bithead - bits)
 							}
-							if index == targetIndex {
+							if b.SBIndices[sbIndexPos+uint32(index)] == labelIndex {
 								labelVoxels++
 							}
 							bitpos += bits
